@@ -142,7 +142,20 @@ pub fn run(tier: Tier, seed: u64) -> i32 {
         // values for this path: via a 64-bit device output read back by the row, or as hex literals
         let vals: Vec<i64> = if via_device { values.clone() } else { values.iter().copied().filter(|v| *v >= 0).collect() };
         let mut script: Vec<Step> = vec![];
-        let ans = |r: i64| -> Answer { case.sigs.iter().filter(|s| s.is_out()).map(|s| (s.name.clone(), V::Num(if s.name == "R" { r } else { 1 }))).collect() };
+        // the device answers 1 and -1 in turn for the outputs under test (a sign-extended reading does not
+        // change what the program expects); every third case the driver leaves one of them out of its
+        // answers altogether (an output it does not report still has its expected value reduced)
+        let reads_q = case.declare_v && case.sigs.iter().find(|s| s.name == "Q").map(|s| s.bits % 3 != 0).unwrap_or(false);
+        let omitted: Option<&str> = if (idx / 2) % 3 == 2 { Some(if reads_q { "D" } else { "Q" }) } else { None };
+        if omitted.is_some() {
+            st.witness("driver_that_does_not_report_an_output");
+        }
+        let call_no = std::cell::Cell::new(0i64);
+        let ans = |r: i64| -> Answer {
+            let c = call_no.get();
+            call_no.set(c + 1);
+            case.sigs.iter().filter(|s| s.is_out() && Some(s.name.as_str()) != omitted).map(|s| (s.name.clone(), V::Num(if s.name == "R" { r } else if c % 2 == 1 { -1 } else { 1 }))).collect()
+        };
         if via_device {
             body.push(Stmt::Repeat(lit(vals.len() as i64), with_prefix((0..ncol).map(|j| if case.mixed && j % 2 == 1 { Entry::Paren(un(UnOp::Inv, name("R"))) } else { Entry::Paren(name("R")) }).collect())));
             for v in &vals {
@@ -241,6 +254,25 @@ pub fn run(tier: Tier, seed: u64) -> i32 {
                 }
             }
         }
+        if mism.is_none() && !via_device && !reads_q {
+            // the static iteration hands out the same reduced values
+            if let Ok(tc) = load(&text, &case.sigs, DEFAULT_BUDGET) {
+                if let StaticObs::Rows(rows, _) = run_static_opt(&tc, r.items.len() + 1, 1, 2_000_000, true) {
+                    st.witness("static_iteration_compared");
+                    for (k, (ri, so)) in r.items.iter().zip(rows.iter()).enumerate() {
+                        if let (RefItem::Row(rr), Ok(sr)) = (ri, so) {
+                            let want_in: Vec<(String, V)> = rr.inputs.clone();
+                            let got_in: Vec<(String, V)> = sr.inputs.iter().map(|(n, v, _)| (n.clone(), *v)).collect();
+                            let want_ex: Vec<(String, V)> = rr.outputs.iter().map(|o| (o.name.clone(), o.expected)).collect();
+                            if want_in != got_in || (rr.checked && want_ex != sr.expected) {
+                                mism = Some(format!("item {k}: outputs expected value / inputs value: the static iteration yields inputs {got_in:?} expected {:?}; prescribed: inputs {want_in:?} expected {want_ex:?}", sr.expected));
+                                break;
+                            }
+                        }
+                    }
+                }
+            }
+        }
         if mism.is_none() && case.mixed && !via_device {
             // `TestCase::signals` is a public field: the widths in force are those the test case
             // holds when it is run, also if they were edited after loading
@@ -281,7 +313,7 @@ pub fn run(tier: Tier, seed: u64) -> i32 {
             "oracle: v mod 2^bits as unsigned bit pattern (refsem::mask); a reduction of the form v & M is pinned exactly by the single-bit values, the others guard against non-mask implementations".into(),
             "values outside the boundary set are not enumerated (2^64 domain, see DESIGN section 10)".into(),
         ],
-        required_witnesses: vec!["width_64", "width_63", "width_1", "value_read_back_from_64_bit_device_output", "value_as_hex_literal", "column_bound_to_two_signals_of_different_width", "signals_of_different_widths_side_by_side", "virtual_signal_that_renames_a_narrow_output", "row_repeated_after_a_failed_call", "width_edited_after_loading", "rows_after_a_row_that_could_not_be_evaluated"],
+        required_witnesses: vec!["width_64", "width_63", "width_1", "value_read_back_from_64_bit_device_output", "value_as_hex_literal", "column_bound_to_two_signals_of_different_width", "signals_of_different_widths_side_by_side", "virtual_signal_that_renames_a_narrow_output", "row_repeated_after_a_failed_call", "width_edited_after_loading", "driver_that_does_not_report_an_output", "static_iteration_compared", "rows_after_a_row_that_could_not_be_evaluated"],
         exhaustive_note: "all widths x all boundary values x all listed paths; quick = thorough".into(),
         e1: false,
     };
